@@ -3,6 +3,7 @@
 #include "simrt.hpp"
 
 #include <cerrno>
+#include <csetjmp>
 
 namespace simrt {
 
@@ -10,7 +11,11 @@ Runtime RT;
 __thread int tls_tid = -1;
 static sem_t g_never; // parked-forever semaphore
 
-static void park_forever() { for (;;) sem_wait(&g_never); }
+static sigjmp_buf g_main_env; // inline-main mode: how the main thread leaves a stopped simulation
+static void park_forever() {
+    if (RT.main_inline && tls_tid == 0) siglongjmp(g_main_env, 1);
+    for (;;) sem_wait(&g_never);
+}
 
 static void wait_sem(sem_t *s) { while (sem_wait(s) != 0 && errno == EINTR) {} }
 
@@ -23,6 +28,7 @@ static void end_run() {
     RT.stop_requested = true;
     RT.active = false;
     sem_post(&RT.done);
+    if (RT.main_inline && tls_tid != 0) sem_post(&RT.T[0].sem); // wake the main thread if it is parked as a sim thread
 }
 
 void fatal(const std::string &cls, const std::string &locus, const std::string &detail) {
@@ -117,8 +123,26 @@ static int choose(int me, YieldKind k) {
     return pick;
 }
 
+static void *thread_main(void *arg);
+static void create_thread(int id, int creator) {
+    pthread_attr_t at;
+    pthread_attr_init(&at);
+    pthread_attr_setstacksize(&at, 1 << 20);
+    pthread_attr_setdetachstate(&at, PTHREAD_CREATE_DETACHED);
+    RT.T[id].created = true;
+    if (creator >= 0) {
+        // pthread_create: everything the creating thread did so far happens-before the new thread's start
+        RT.T[id].vc.join(RT.T[creator].vc);
+        RT.T[creator].vc.c[creator]++;
+        RT.lazily_created++;
+        if (RT.mark && RT.mark[creator]) RT.created_inside_marked++;
+    }
+    pthread_create(&RT.T[id].th, &at, thread_main, &RT.T[id]);
+}
+
 static void switch_to(int me, int next, bool wait_after) {
     if (next == me) return;
+    if (!RT.T[next].created) create_thread(next, me);
     RT.switches++;
     if (me >= 0 && RT.T[me].state == T_RUNNABLE) { RT.preemptions++; if (RT.mark && RT.mark[me]) RT.preempt_marked++; }
     RT.cur = next;
@@ -173,26 +197,48 @@ static void *thread_main(void *arg) {
     return nullptr;
 }
 
-// run n sim threads to completion (or to the first fatal event); called from the (non-sim) main thread
+// run n sim threads to completion (or to the first fatal event); called from the main thread.
+// classic mode : all n threads are created up front and parked; the main thread only waits.
+// inline mode  : the main thread IS thread 0 (the process is single-threaded until the scheduler first picks
+//                another thread, which is created at that very moment -- possibly while thread 0 is inside
+//                sodium_init()).
 void run_threads(int n, void (*body)(int)) {
     static bool once = false;
     if (!once) { sem_init(&g_never, 0, 0); once = true; }
     while (sem_trywait(&RT.done) == 0) {}
-    pthread_attr_t at;
-    pthread_attr_init(&at);
-    pthread_attr_setstacksize(&at, 1 << 20);
-    pthread_attr_setdetachstate(&at, PTHREAD_CREATE_DETACHED);
-    VC parent; // thread creation: everything main did so far happens-before each thread's start
-    for (int i = 0; i < n; i++) {
-        RT.T[i].body = body;
-        RT.T[i].state = T_RUNNABLE;
-        pthread_create(&RT.T[i].th, &at, thread_main, &RT.T[i]);
+    for (int i = 0; i < n; i++) { RT.T[i].body = body; RT.T[i].state = T_RUNNABLE; }
+    if (!RT.main_inline) {
+        for (int i = 0; i < n; i++) create_thread(i, -1);
+        RT.active = true;
+        int first = choose(-1, Y_START);
+        RT.cur = first;
+        sem_post(&RT.T[first].sem);
+        wait_sem(&RT.done);
+        RT.active = false;
+        return;
     }
+    RT.T[0].created = true;
+    tls_tid = 0;
+    RT.cur = 0;
     RT.active = true;
-    int first = choose(-1, Y_START);
-    RT.cur = first;
-    sem_post(&RT.T[first].sem);
-    wait_sem(&RT.done);
+    if (sigsetjmp(g_main_env, 1) == 0) {
+        yield_point(Y_START, 0);
+        body(0);
+        yield_point(Y_EXIT, 0);
+        sync_release((void *) &RT.done, 0);
+        RT.T[0].state = T_FINISHED;
+        if (all_finished()) end_run();
+        else {
+            int next = choose(0, Y_EXIT);
+            if (next < 0) fatal("deadlock", "all-blocked", "the main thread finished and every remaining thread is blocked");
+            tls_tid = -1;
+            switch_to(0, next, false);
+            wait_sem(&RT.done);
+        }
+    }
+    // reached normally, or by siglongjmp when the simulation was stopped while the main thread was inside it
+    tls_tid = -1;
+    simos_reset_thread();
     RT.active = false;
 }
 
